@@ -38,7 +38,15 @@ def r14_4(ctx, rep):
     for n, sub in g.callee_inst.items():
         b = sub.body
         tys = [l.get("ty", "") for l in b.get("locals", [])[1:1 + b.get("argc", 0)]]
-        if any(re.search(r"(^|[^&\w])(raft_log::wal::flush_request::)?WorkerRequest<", t) and not t.startswith("&") for t in tys):
+        def carries_request(t):
+            if t.startswith("&"):
+                return False
+            if re.search(r"(^|[^&\w:])(\w+::)*WorkerRequest<", t):
+                return True
+            adt = ctx.facts.adts.get(re.sub(r"<.*$", "", t))
+            return bool(adt) and not adt["is_enum"] and any(re.search(r"(^|[^&\w:])(\w+::)*WorkerRequest<", f["ty"])
+                                                           for f in adt["variants"][0]["fields"])
+        if any(carries_request(t) for t in tys):
             handlers.add(n)
     handler_inst = {g.callee_inst[n].id for n in handlers}
     if not rep.expect("R14.4", "receive sites and the non-Write handler in the worker", len(recvs) >= 2 and len(handlers) >= 1,
